@@ -292,6 +292,11 @@ func init() {
 		if !types.Identical(a.T, b.T) {
 			return retExit(st, e.tc.False)
 		}
+		if x, ok := a.V.(ErrV); ok {
+			if y, ok := b.V.(ErrV); ok {
+				return retExit(st, e.tc.Bool(x.ID == y.ID)) // (network errors match their sentinel by kind)
+			}
+		}
 		return retExit(st, e.eqVal(a.V, b.V))
 	}
 	// internal/bytealg: assembly routines, given their documented semantics on concrete or symbolic bytes
